@@ -435,6 +435,9 @@ func runtimeRem(x, y interface{}) interface{} {
 			switch vy.Kind() {
 			case reflect.Int, reflect.Int32, reflect.Int64, reflect.Int16, reflect.Int8:
 				return int(vx.Int() % vy.Int())
+			case reflect.Float32, reflect.Float64:
+				// an integer literal on the left of a number from the data: `7 % n`
+				return vx.Int() % int64(vy.Float())
 			}
 		}
 	case reflect.Float64, reflect.Float32:
